@@ -995,7 +995,14 @@ J_in_words(e) ==
        IF p.k = "exc" THEN << <<"unexpected-exception", p.names>> >>
        ELSE IF p.k # "str" THEN << <<"kind", p.k>> >>
        ELSE V("non-empty", Len(p.v) > 0, "non-empty") \o V("placeholders-substituted", ~Has(p.v, 123) /\ ~Has(p.v, 125), "no { }")
-            \o (IF want = <<>> THEN <<>> ELSE V("words", p.v = want, want)))
+            \o (IF want = <<>> THEN <<>> ELSE V("words", p.v = want, want))
+            \* a Duration shorter than a second (of either sign) is spelt as a fraction of a second, not as the empty duration:
+            \* from a hundredth of a second on, a count in the phrase carries a non-zero digit
+            \o (IF a.entry = "duration" /\ want = <<>>
+                THEN LET m == D3Abs(RestOf(e.pre[1].args)) IN
+                     IF m[1] = 0 /\ m[2] = 0 /\ m[3] >= 10000
+                     THEN V("subsecond-not-zero", (\E dg \in 49..57 : Has(p.v, dg)) \/ ~(\E dg \in 48..57 : Has(p.v, dg)), "a non-zero digit, or no count at all (locales whose singular omits it)") ELSE <<>>
+                ELSE <<>>))
 
 \* ---- C11 -----------------------------------------------------------------------------
 \* accessors the spec models; every other accessor is judged by equality with the native twin only
